@@ -88,3 +88,7 @@ add("C04", "c04", q, t)
 # ---- C13 linked lists --------------------------------------------------------------
 q, t = rapid_jobs(qshards=4, tshards=16, tscale=10)
 add("C13", "c13", q, t)
+
+# ---- C14 slicez ---------------------------------------------------------------------
+q, t = rapid_jobs(qshards=4, tshards=16, tscale=10)
+add("C14", "c14", q, t)
